@@ -239,6 +239,32 @@ func (a *Adversary) proposalFor(t *Node, k *PrivKey, idx int, h uint32, v byte) 
 		hs = []Hash{}
 	}
 	ts := t.tip().TS + s.sc.TSInc*(1+s.tape.Draw(SAdv, 5))
+	if s.tape.Chance(SAdv, 1, 4) {
+		// nothing in the protocol stops a faulty primary from signing an odd timestamp (the
+		// application's policy callback may): equal to or behind the previous block's, not a
+		// multiple of the increment, far ahead.  Whatever it is, the block that honest nodes
+		// accept carries exactly the proposed value (C02).
+		prev := t.tip().TS
+		switch s.tape.Draw(SAdv, 5) {
+		case 0:
+			ts = prev
+		case 1:
+			if back := s.sc.TSInc * (1 + s.tape.Draw(SAdv, 100000)); back < prev {
+				ts = prev - back
+			} else {
+				ts = 1
+			}
+		case 2:
+			ts = prev + 1 + s.tape.Draw(SAdv, s.sc.TSInc+1)
+		case 3:
+			ts = prev + s.sc.TSInc*(1000+s.tape.Draw(SAdv, 1000000))
+		case 4:
+			if prev > 0 {
+				ts = prev - 1
+			}
+		}
+		s.fault("adv:proposal_with_odd_timestamp")
+	}
 	p := &Payload{T: dbft.PrepareRequestType, H: h, V: v, Idx: uint16(idx),
 		Body: &PrepReq{TS: ts, Nnc: uint64(grp) + 1000*uint64(a.made), Hashes: hs}}
 	p.sign(k)
